@@ -294,7 +294,7 @@ def _s6_waiters(vc):
                         'kopf._cogs.aiokits.aioenums.FlagWaiter.is_set', 'kopf._cogs.aiokits.aioenums.FlagWaiter.reason',
                         'kopf._cogs.aiokits.aioenums.SyncFlagWaiter.wait', 'kopf._cogs.aiokits.aioenums.AsyncFlagWaiter.wait',
                         'kopf._cogs.aiokits.aioenums.AsyncFlagPromise.__await__'],
-         props=['C09'],
+         props=['C09', 'C10', 'C20', 'C13'],
          clauses=['fresh_is_unset', 'is_set_any_vs_specific', 'is_set_is_pure', 'set_raises_both_events', 'first_set_time_kept',
                   'reasons_accumulate', 'never_cleared', 'waiters_reflect_setter', 'sync_wait_blocks_on_the_event',
                   'async_wait_returns_waiter'],
@@ -1906,7 +1906,7 @@ def _o1u_set(vc):
 @harness('O1u', targets=['kopf._cogs.aiokits.aiotoggles.Toggle.__init__', 'kopf._cogs.aiokits.aiotoggles.Toggle.is_on',
                          'kopf._cogs.aiokits.aiotoggles.Toggle.is_off', 'kopf._cogs.aiokits.aiotoggles.Toggle.turn_to',
                          'kopf._cogs.aiokits.aiotoggles.Toggle.wait_for', 'kopf._cogs.aiokits.aiotoggles.ToggleSet.wait_for'],
-         props=['C13', 'C17'],
+         props=['C13', 'C17', 'C09', 'C19'],
          clauses=['toggle.init', 'toggle.is_on_is_off', 'turn_to.sets_state', 'turn_to.notifies_under_lock', 'wait_for.on_own_condition_under_lock',
                   'wait_for.returns_only_in_wanted_state', 'wait_for.no_wait_when_already_there',
                   'set_wait_for.returns_only_in_wanted_aggregate'],
